@@ -11,7 +11,7 @@ use std::collections::BTreeSet;
 use std::sync::atomic::{AtomicU64, Ordering};
 use std::sync::{Arc, Mutex};
 
-pub const COUNTERS: &[&str] = &["sequences", "operations_replayed", "lookups_compared", "predicate_calls_checked", "distinct_model_states", "constructions_valid", "constructions_invalid", "sizes"];
+pub const COUNTERS: &[&str] = &["sequences", "operations_replayed", "lookups_compared", "predicate_calls_checked", "distinct_model_states", "constructions_valid", "constructions_invalid", "sizes", "huge_tables"];
 
 #[derive(Clone, Copy, PartialEq, PartialOrd, Debug)]
 pub struct Wide(pub u32, pub u64, pub u32);
@@ -104,6 +104,8 @@ pub enum Pred {
     Never,
     OldIsDefault,
     OldLessThanNew,
+    /// the predicate panics (caught by the caller): it did not say "true", so nothing may be replaced
+    Panics,
 }
 #[derive(Clone, Copy, PartialEq, Eq, Debug)]
 pub enum Op {
@@ -134,9 +136,9 @@ pub fn hash_alphabet(size: usize) -> Vec<u64> {
     keep
 }
 pub fn ops_for(size: usize) -> Vec<Op> {
-    ops_from(&hash_alphabet(size))
+    ops_from(&hash_alphabet(size), false)
 }
-pub fn ops_from(alphabet: &[u64]) -> Vec<Op> {
+pub fn ops_from(alphabet: &[u64], with_panics: bool) -> Vec<Op> {
     let mut out = vec![];
     for &h in alphabet.iter() {
         for v in [1u8, 2] {
@@ -144,6 +146,9 @@ pub fn ops_from(alphabet: &[u64]) -> Vec<Op> {
             for p in [Pred::Always, Pred::Never, Pred::OldIsDefault, Pred::OldLessThanNew] {
                 out.push(Op::ReplaceIf(h, v, p));
             }
+        }
+        if with_panics {
+            out.push(Op::ReplaceIf(h, 1, Pred::Panics));
         }
     }
     out
@@ -217,15 +222,21 @@ fn run_case<T: Val>(size: usize, seq: &[Op], alphabet: &[u64], slots: &[usize]) 
                 let seen: RefCell<Vec<u8>> = RefCell::new(vec![]);
                 let newv = T::make(v);
                 let dflt = T::make(0);
-                table.replace_if(h, newv, |o: T| {
-                    seen.borrow_mut().push(o.code());
-                    match p {
-                        Pred::Always => true,
-                        Pred::Never => false,
-                        Pred::OldIsDefault => o == dflt,
-                        Pred::OldLessThanNew => o < newv,
-                    }
-                });
+                let unwound = std::panic::catch_unwind(std::panic::AssertUnwindSafe(|| {
+                    table.replace_if(h, newv, |o: T| {
+                        seen.borrow_mut().push(o.code());
+                        match p {
+                            Pred::Always => true,
+                            Pred::Never => false,
+                            Pred::OldIsDefault => o == dflt,
+                            Pred::OldLessThanNew => o < newv,
+                            Pred::Panics => std::panic::resume_unwind(Box::new("predicate panics")),
+                        }
+                    })
+                }));
+                if unwound.is_err() != (p == Pred::Panics) {
+                    return Err(format!("replace_if {} although the predicate {}", if unwound.is_err() { "unwound" } else { "returned" }, if p == Pred::Panics { "panicked" } else { "returned" }));
+                }
                 let seen = seen.into_inner();
                 if seen != vec![old] {
                     return Err(format!("replace_if handed {:?} to the predicate, the slot's current value is {}", seen, old));
@@ -237,6 +248,7 @@ fn run_case<T: Val>(size: usize, seq: &[Op], alphabet: &[u64], slots: &[usize]) 
                     Pred::Never => false,
                     Pred::OldIsDefault => told == dflt,
                     Pred::OldLessThanNew => told < tnew,
+                    Pred::Panics => false,
                 };
                 if yes {
                     model[slot] = (h, v);
@@ -276,7 +288,10 @@ pub fn large_alphabet(size: usize) -> Vec<u64> {
     v
 }
 fn explore_with<T: Val>(run: &Run, tyname: &'static str, size: usize, depth: usize, states: &Mutex<BTreeSet<Vec<(u64, u8)>>>, alphabet: Vec<u64>) {
-    let ops = ops_from(&alphabet);
+    explore_ops::<T>(run, tyname, size, depth, states, alphabet, false)
+}
+fn explore_ops<T: Val>(run: &Run, tyname: &'static str, size: usize, depth: usize, states: &Mutex<BTreeSet<Vec<(u64, u8)>>>, alphabet: Vec<u64>, with_panics: bool) {
+    let ops = ops_from(&alphabet, with_panics);
     let a2 = alphabet.clone();
     let slots = match guard::lib(move || infer_slots::<T>(size, &a2)) {
         Ok(Ok(s)) => s,
@@ -295,7 +310,7 @@ fn explore_with<T: Val>(run: &Run, tyname: &'static str, size: usize, depth: usi
         let mut local_states: BTreeSet<Vec<(u64, u8)>> = BTreeSet::new();
         let mut seq = vec![*first];
         fn rec<T: Val>(run: &Run, tyname: &str, size: usize, ops: &[Op], alphabet: &[u64], slots: &[usize], seq: &mut Vec<Op>, depth: usize, acc: &mut (u64, u64, u64, u64), st: &mut BTreeSet<Vec<(u64, u8)>>) {
-            if run.has_violation() {
+            if run.has_violation() || run.over_budget() {
                 return;
             }
             let desc = format!("T={tyname} size={size} ops={:?}", seq.iter().map(|o| o.name()).collect::<Vec<_>>());
@@ -362,6 +377,7 @@ fn op_parse(v: &Value) -> Option<Op> {
                 "Always" => Pred::Always,
                 "Never" => Pred::Never,
                 "OldIsDefault" => Pred::OldIsDefault,
+                "Panics" => Pred::Panics,
                 _ => Pred::OldLessThanNew,
             },
         )),
@@ -409,18 +425,88 @@ fn constructions(run: &Run) {
     }
 }
 
-pub const RULE: &str = "E2 over operation sequences: for each table size in {1, 2, 4, 8} (thorough: also 16) and each value type (u8 and a 16-byte struct), EVERY sequence of up to D operations (D = 4 quick, 5 thorough) over the alphabet {add, replace_if with always / never / old==default / old<new} x 6 hashes (0, 1, size-1, size, size+1, 2^32+1, 2^63, u64::MAX, 2*size+1 reduced to 6: slot-colliding and non-colliding, high-bit) x values {1, 2}; every sequence is replayed on a fresh real table and on a slot-array model (which hashes share a slot is observed on fresh tables, not assumed: the relation must be an equivalence with at most `size` classes); after it get(h) for every alphabet hash and the value handed to every predicate must agree. Larger tables (32, 64, 1024, 65536 to depth 2; 2^20 to depth 1) with a 12-hash alphabet (0, 1, size-1, size, size+1, 2*size, size*2^20, 2^41, 2^41+1, 2^41+size, 2^63+1, u64::MAX) and three further value types (40-byte struct; float payload whose default is +0.0, value 1 is -0.0 and value 2 a NaN; a struct whose equality ignores one field), the default never being the all-zero bit pattern; for sizes >= 64 the alphabet also holds 31, 32, 33, size/2, size/2+1 are explored the same way. Construction: every size in 0..=1025 and 2^k, 2^k +- 1 for k <= 20 panics iff it is not a power of two, and a fresh table answers as (hash 0, default). Out-of-table access aborts loudly in this debug-assertion build. states = sequences (histories), transitions = operations replayed. distinct_nontrivial = distinct model states reached";
+/// Child process: a table of 2^k entries with the zero-sized payload `()` (8 bytes per entry).
+pub fn huge_worker(k: u32) -> i32 {
+    let size = 1usize << k;
+    let r = guard::lib(move || {
+        let mut t: CacheTable<()> = CacheTable::new(size, ());
+        let s = size as u64;
+        let mut bad: Vec<String> = vec![];
+        let mut expect = |what: &str, got: Option<()>, want: Option<()>| {
+            if got != want {
+                bad.push(format!("{what} = {:?}, expected {:?}", got, want));
+            }
+        };
+        expect("fresh get(0)", t.get(0), Some(()));
+        expect("fresh get(1)", t.get(1), None);
+        t.add(1, ());
+        t.add(2, ());
+        t.add(s - 1, ());
+        expect("get(1) after add(1), add(2), add(size-1)", t.get(1), Some(()));
+        expect("get(2)", t.get(2), Some(()));
+        expect("get(size-1)", t.get(s - 1), Some(()));
+        expect("get(size+1)", t.get(s + 1), None);
+        t.add(s + 1, ());
+        expect("get(1) after add(size+1)", t.get(1), None);
+        expect("get(size+1)", t.get(s + 1), Some(()));
+        expect("get(2) after add(size+1)", t.get(2), Some(()));
+        bad
+    });
+    match r {
+        Ok(bad) if bad.is_empty() => println!("HUGE OK"),
+        Ok(bad) => println!("HUGE BAD {}", bad.join("; ")),
+        Err(e) => println!("HUGE PANIC {e}"),
+    }
+    0
+}
+
+/// Thorough tier: tables of 2^31 and 2^32 entries (16 / 32 GiB) in a child process, when the machine
+/// has the memory; index arithmetic narrower than usize shows only there.
+fn huge_sizes(run: &Run) {
+    let avail_kb: u64 = std::fs::read_to_string("/proc/meminfo").ok().and_then(|t| t.lines().find(|l| l.starts_with("MemAvailable:")).and_then(|l| l.split_whitespace().nth(1).and_then(|v| v.parse().ok()))).unwrap_or(0);
+    let exe = match std::env::current_exe() {
+        Ok(e) => e,
+        Err(_) => return,
+    };
+    for k in [31u32, 32] {
+        let need_kb = (8u64 << k) / 1024;
+        if avail_kb < need_kb + need_kb / 4 + 4 * 1024 * 1024 {
+            run.cap(format!("table of 2^{k} entries not tried: it needs {} GiB, MemAvailable is {} GiB", need_kb >> 20, avail_kb >> 20));
+            continue;
+        }
+        let out = std::process::Command::new(&exe).args(["C19-huge-worker", &k.to_string()]).output();
+        let txt = out.as_ref().map(|o| String::from_utf8_lossy(&o.stdout).to_string()).unwrap_or_default();
+        if txt.contains("HUGE OK") {
+            run.add("huge_tables", 1);
+        } else if let Some(l) = txt.lines().find(|l| l.starts_with("HUGE BAD") || l.starts_with("HUGE PANIC")) {
+            let clause = if l.starts_with("HUGE PANIC") { "construction" } else { "sequence" };
+            run.report(Violation::new("C19", clause, if clause == "construction" { "power of two rejected" } else { "lookup" }, format!("CacheTable<()> of 2^{k} entries: {l}"), json!({"kind": "cache-huge", "log2_size": k})));
+        } else if txt.contains("VIOLATION property=C19") {
+            run.report(Violation::new("C19", "panic", "abort", format!("CacheTable<()> of 2^{k} entries: the child aborted inside the library: {}", txt.lines().next().unwrap_or("")), json!({"kind": "cache-huge", "log2_size": k})));
+        } else {
+            run.cap(format!("table of 2^{k} entries: the child process ended without a verdict ({:?}); not judged", out.map(|o| o.status)));
+        }
+    }
+}
+
+pub const RULE: &str = "E2 over operation sequences: for each table size in {1, 2, 4, 8} and each value type (u8 and a 16-byte struct), EVERY sequence of up to 4 operations (thorough, phase 2, as far as the budget allows and reported in phase2_completed: 5 operations, size 16, one more operation for the other alphabets) over the alphabet {add, replace_if with always / never / old==default / old<new} x 6 hashes (0, 1, size-1, size, size+1, 2^32+1, 2^63, u64::MAX, 2*size+1 reduced to 6: slot-colliding and non-colliding, high-bit) x values {1, 2}; every sequence is replayed on a fresh real table and on a slot-array model (which hashes share a slot is observed on fresh tables, not assumed: the relation must be an equivalence with at most `size` classes); after it get(h) for every alphabet hash and the value handed to every predicate must agree. For sizes 1, 2, 8 the alphabet is extended by replace_if with a predicate that panics (caught by the caller; it never said 'true', so nothing may be replaced) to depth 3. Larger tables (32, 64, 1024, 65536 to depth 2; 2^20 to depth 1) with a 12-hash alphabet (0, 1, size-1, size, size+1, 2*size, size*2^20, 2^41, 2^41+1, 2^41+size, 2^63+1, u64::MAX) and three further value types (40-byte struct; float payload whose default is +0.0, value 1 is -0.0 and value 2 a NaN; a struct whose equality ignores one field), the default never being the all-zero bit pattern; for sizes >= 64 the alphabet also holds 31, 32, 33, size/2, size/2+1 are explored the same way. Construction: every size in 0..=1025 and 2^k, 2^k +- 1 for k <= 20 panics iff it is not a power of two, and a fresh table answers as (hash 0, default). Thorough tier: tables of 2^31 and 2^32 entries with a zero-sized payload (16 / 32 GiB), in a child process and only when MemAvailable allows (otherwise reported as a cap): construction, adds and lookups around slot 1, 2, size-1. Out-of-table access aborts loudly in this debug-assertion build. states = sequences (histories), transitions = operations replayed. distinct_nontrivial = distinct model states reached";
 
 pub fn run(tier: Tier) -> i32 {
     let run = Arc::new(Run::new("C19", tier, COUNTERS));
     constructions(&run);
     let states = Mutex::new(BTreeSet::new());
-    let depth = tier.pick(4usize, 5usize);
-    let sizes: Vec<usize> = tier.pick(vec![1, 2, 4, 8], vec![1, 2, 4, 8, 16]);
+    // phase 1 (both tiers, always complete): the quick bounds
+    let depth = 4usize;
+    let sizes: Vec<usize> = vec![1, 2, 4, 8];
     for &size in sizes.iter() {
         explore::<u8>(&run, "u8", size, depth, &states);
         explore::<Wide>(&run, "Wide", size, depth, &states);
         run.add("sizes", 1);
+    }
+    // a predicate that panics (caught by the caller) joins the alphabet at depth 3
+    for &size in [1usize, 2, 8].iter() {
+        explore_ops::<u8>(&run, "u8", size, 3, &states, hash_alphabet(size), true);
+        explore_ops::<Wide>(&run, "Wide", size, 3, &states, hash_alphabet(size), true);
     }
     // larger tables, hashes that differ only above bit 40 or are multiples of the size, further
     // value types (40-byte struct, float payload with a NaN value)
@@ -430,9 +516,41 @@ pub fn run(tier: Tier) -> i32 {
     }
     explore_with::<u8>(&run, "u8", 1 << 20, 1, &states, large_alphabet(1 << 20));
     for &size in [1usize, 4, 64].iter() {
-        explore_with::<Wide40>(&run, "Wide40", size, tier.pick(2, 3), &states, large_alphabet(size));
-        explore_with::<Fl>(&run, "Fl", size, tier.pick(2, 3), &states, large_alphabet(size));
-        explore_with::<Ign>(&run, "Ign", size, tier.pick(2, 3), &states, large_alphabet(size));
+        explore_with::<Wide40>(&run, "Wide40", size, 2, &states, large_alphabet(size));
+        explore_with::<Fl>(&run, "Fl", size, 2, &states, large_alphabet(size));
+        explore_with::<Ign>(&run, "Ign", size, 2, &states, large_alphabet(size));
+    }
+    if run.over_budget() {
+        run.cap("wall-clock budget reached during phase 1 of the sequence exploration".to_string());
+    }
+    let mut deeper_done: Vec<String> = vec![];
+    if tier == Tier::Thorough && !run.has_violation() {
+        huge_sizes(&run);
+        // phase 2: one more operation everywhere, in this order, until the budget is used up
+        for &size in [1usize, 4, 64].iter() {
+            explore_with::<Wide40>(&run, "Wide40", size, 3, &states, large_alphabet(size));
+            explore_with::<Fl>(&run, "Fl", size, 3, &states, large_alphabet(size));
+            explore_with::<Ign>(&run, "Ign", size, 3, &states, large_alphabet(size));
+            if !run.over_budget() {
+                deeper_done.push(format!("value types Wide40/Fl/Ign size {size} depth 3"));
+            }
+        }
+        for &size in [1usize, 2, 8].iter() {
+            explore_ops::<u8>(&run, "u8", size, 4, &states, hash_alphabet(size), true);
+            if !run.over_budget() {
+                deeper_done.push(format!("panicking predicate size {size} depth 4"));
+            }
+        }
+        for &size in [16usize, 1, 2, 4, 8].iter() {
+            explore::<u8>(&run, "u8", size, if size == 16 { 4 } else { 5 }, &states);
+            if !run.over_budget() {
+                deeper_done.push(format!("u8 size {size} depth {}", if size == 16 { 4 } else { 5 }));
+            }
+        }
+        if run.over_budget() {
+            run.cap(format!("wall-clock budget reached during phase 2 (deeper bounds); completed there: {:?}", deeper_done));
+        }
+        run.note("phase2_completed", json!(deeper_done));
     }
     let d = states.lock().unwrap().len() as u64;
     run.add("distinct_model_states", d);
@@ -486,6 +604,7 @@ pub fn replay(case: &Value) -> i32 {
                 run.report(Violation::new("C19", "slot-sharing", "", e, case.clone()));
             }
         }
+        Some("cache-huge") => huge_sizes(&run),
         _ => constructions(&run),
     }
     crate::replay_verdict(&run)
